@@ -127,6 +127,17 @@ theorem clock_values_mono (k : Nat) : fakeMonoNanos k = (k * ms) % 2 ^ 64 := by
   have := reading_eq NewFakeNanotime_start NewFakeNanotime_step 0 ms k fake_clock_constants.2.1 fake_clock_constants.2.2.2.1
   simpa using this
 
+/-- The fake clocks never stand still or go back: within the first 1.6·10¹³ readings each reading of either clock is
+strictly larger than every earlier one (so a guest measuring elapsed time never sees zero or a negative span). -/
+theorem clock_strictly_increasing (j k : Nat) (hjk : j < k) (hk : k < 16000000000000) :
+    fakeWallNanos j < fakeWallNanos k ∧ fakeMonoNanos j < fakeMonoNanos k := by
+  have h2 : ms = 1000000 := rfl
+  refine ⟨?_, ?_⟩
+  · rw [clock_values_wall_small j (by omega), clock_values_wall_small k hk, h2]
+    omega
+  · rw [clock_values_mono, clock_values_mono, h2, Nat.mod_eq_of_lt (by omega), Nat.mod_eq_of_lt (by omega)]
+    omega
+
 example : fakeWallNanos 0 = 1640995200000000000 ∧ fakeWallNanos 3 = 1640995200003000000 ∧ fakeMonoNanos 0 = 0 ∧
     fakeMonoNanos 7 = 7000000 := by decide
 
